@@ -17,7 +17,9 @@ RULE = (
     "class searched with two different packs - equivalence paths on one side only, permuted child order, empty "
     "children, SplitAtom vs Expand; (two-dbs) different rule databases; (random) independent classes, mostly "
     "non-isomorphic; a third of the pairs is JSON-reloaded first. Non-trivial: a bijection was constructed between "
-    "specifications that are not equal and >=10 objects were mapped. Distinct = distinct canonical JSON of the pair."
+    "specifications that are not equal and >=10 objects were mapped. Distinct = distinct canonical JSON of the pair. "
+    "(pool) one pack and alphabet, 30-60 pattern sets (1-3 patterns of length 3-4) all searched, every ordered pair of "
+    "the resulting specifications judged; non-trivial: at least 20 ordered pairs."
 )
 LEVEL_TEXT = (
     "Exploration with a brute-force object oracle: whenever Bijection.construct returns a bijection, for every size "
